@@ -646,7 +646,12 @@ class Interp:
         if self.pure_mode:
             raise _NotPure()
         cls = self.exc_classes[clsname]
-        raise PyRaise(PObj(cls, {"args": tuple(args)}))
+        where = None
+        for fr in reversed(self.frames):
+            if fr.func is not None:
+                where = f"{fr.func.module.relpath}:{self.cur_line}"
+                break
+        raise PyRaise(PObj(cls, {"args": tuple(args), "__where__": where}))
 
     # -- expression evaluation: see eval_expr.py mixin ---------------------------------------------------------
     from .eval_expr import (binop_values, call, call_function, compare_values, contains, do_getattr, do_setattr,  # noqa: E402
